@@ -90,12 +90,23 @@ Lemma as_te_ff {A} (r : res A) : fuel_free r -> fuel_free (as_translation_error 
 Proof. unfold fuel_free, as_translation_error. destruct r; congruence. Qed.
 #[export] Hint Resolve as_te_ff : ff.
 
-Lemma assign_addresses_ff : forall ss a, fuel_free (assign_addresses ss a).
+Lemma assign_addresses_ff : forall ss a em, fuel_free (assign_addresses ss a em).
 Proof.
-  induction ss as [|s r IH]; intros a; cbn [assign_addresses]; [discriminate|].
+  induction ss as [|s r IH]; intros a em; cbn [assign_addresses]; [discriminate|].
   apply ff_bind.
   - destruct (v_is_none _); [apply ff_bind; [apply as_te_ff, numv_ff | intros; discriminate]|]. destruct (cp_addr _); discriminate.
-  - intros [av a']. apply ff_bind; [apply IH | intros; discriminate].
+  - intros [av a']. destruct (em && _); [discriminate|]. apply ff_bind; [apply IH | intros; discriminate].
+Qed.
+
+Lemma resolve_defined_ff : forall ss tb, fuel_free (resolve_defined ss tb).
+Proof.
+  induction ss as [|s r IH]; intros tb; cbn [resolve_defined]; [discriminate|].
+  destruct (s_label s); [apply IH|]. destruct (Tables.is_pseudo_define _); [|apply IH].
+  destruct (lookup _ tb) as [v|]; [|discriminate]. destruct (_ || _); [|apply IH].
+  apply ff_bind.
+  - pose proof (resolve_value_ff v tb) as Hf. unfold fuel_free, defined_error in *. destruct (resolve_value v tb) as [?|c|?| |]; try congruence.
+    repeat match goal with |- context [match ?x with _ => _ end] => destruct x end; discriminate.
+  - intros v'. destruct (_ || _); [apply IH | discriminate].
 Qed.
 
 Lemma addr_of_ff ss k : fuel_free (addr_of ss k). Proof. unfold addr_of. ff_tac. Qed.
@@ -134,7 +145,8 @@ Theorem translate_program_terminates fm parsed : fuel_free (translate_program fm
 Proof.
   unfold translate_program.
   apply ff_bind; [apply expand_ff; [constructor | intros x [] | cbn [length]; lia]|intros ss0].
-  apply ff_bind; [apply save_symbols_ff|intros tb].
+  apply ff_bind; [apply save_symbols_ff|intros tb0].
+  apply ff_bind; [apply resolve_defined_ff|intros tb].
   apply ff_bind; [apply map_res_ff, resolve_stmt_ff|intros ss1].
   apply ff_bind; [apply map_res_ff; intros; apply translate_stmt_ff|intros ss2].
   apply ff_bind; [apply size_loop_enough_fuel|intros ss3].
